@@ -234,6 +234,8 @@ impl Translator {
                 }
             }
             syn::Type::Reference(r) => self.rust_ty(&r.elem, generics),
+            // `&[f64]` (parameters only; as a struct field it is outside the plain-data grammar, see `collect`)
+            syn::Type::Slice(sl) if self.rust_ty(&sl.elem, generics) == Ty::F64 => Ty::Slice,
             syn::Type::Tuple(t) => {
                 if t.elems.is_empty() {
                     Ty::Unit
@@ -275,7 +277,10 @@ impl Translator {
                         if let syn::Fields::Named(nf) = &s.fields {
                             for fld in &nf.named {
                                 let fname = fld.ident.as_ref().unwrap().to_string();
-                                let ty = self.rust_ty(&fld.ty, &[]);
+                                let ty = match self.rust_ty(&fld.ty, &[]) {
+                                    Ty::Slice => Ty::Unknown,
+                                    t => t,
+                                };
                                 let rust_ty = quote::ToTokens::to_token_stream(&fld.ty).to_string().replace(' ', "");
                                 let mut skip = false;
                                 for a in &fld.attrs {
